@@ -40,6 +40,12 @@ def gen_case(rng, ltype, sharp=True):
     cfg, h = lc.gen_lens_cfg(rng, ltype, sharp=sharp, with_scaling=(rng.random() < 0.6))
     data = lc.data_kwargs(rng, ltype)
     lc.finish_scaling(rng, cfg, data, ltype)
+    if ltype in ("DdtHist", "DdtHistKDE", "DdtHistKin") and rng.random() < 0.7:
+        # importance-weighted posterior samples: the reported data mean / sigma are the weighted ones
+        ns = len(data["ddt_samples"])
+        data["ddt_weights"] = np.array([rng.choice([rng.uniform(0.05, 3.0), rng.uniform(0.5, 1.5), 1.0]) for _ in range(ns)])
+        if rng.random() < 0.3:
+            data["ddt_weights"] = data["ddt_weights"] * rng.choice([1e-3, 40.0])
     cfg["num_distribution_draws"] = rng.choice([2, 3, 5]) if sharp else 4000
     if ltype in lc.KIN_TYPES:
         data["sigma_sys_error_include"] = rng.random() < 0.5
@@ -169,8 +175,12 @@ def oracle(case, out, lens, cosmo):
             fails.append("ddt_measurement %r is not the data mean / sigma" % (dm,))
     elif lt in ("DdtHist", "DdtHistKDE", "DdtHistKin"):
         s = np.asarray(d["ddt_samples"], dtype=float)
-        if not (close(dm[0], float(np.mean(s)), 1e-9) and close(dm[1], float(np.std(s)), 1e-6)):
-            fails.append("ddt_measurement %r is not the sample mean / std (%r, %r)" % (dm, float(np.mean(s)), float(np.std(s))))
+        w = d.get("ddt_weights")
+        w = np.ones_like(s) if w is None else np.asarray(w, dtype=float)
+        wm = float(math.fsum(s * w) / math.fsum(w))
+        ws = math.sqrt(math.fsum(w * (s - wm) ** 2) / math.fsum(w))
+        if not (close(dm[0], wm, 1e-9) and close(dm[1], ws, 1e-6)):
+            fails.append("ddt_measurement %r is not the (weighted) sample mean / std (%r, %r)" % (dm, wm, ws))
     elif dm[0] is not None:
         fails.append("ddt_measurement for a type without Ddt data")
     return fails
@@ -278,6 +288,12 @@ def run(ctx, res):
                           "draws": [{"ddt": f2b(a), "dd": f2b(b), "ks": [f2b(x) for x in (ks if len(ks) == len(d["j_model"]) else ks * len(d["j_model"]))]}
                                     for a, b, ks in draws]})
             meta.append(("report", case, out))
+        if case["ltype"] in ("DdtHist", "DdtHistKDE", "DdtHistKin") and out.get("ddt_meas") is not None:
+            sm = np.asarray(d["ddt_samples"], dtype=float)
+            wt = d.get("ddt_weights")
+            wt = np.ones_like(sm) if wt is None else np.asarray(wt, dtype=float)
+            lines.append({"op": "C12.measurement", "samples": [f2b(x) for x in sm], "weights": [f2b(x) for x in wt]})
+            meta.append(("ddt_meas", case, out))
     for _ in range(ctx.n(12, 120)):
         try:
             fails, chi2, logl, nd = chi2_oracle(rng)
@@ -303,6 +319,11 @@ def run(ctx, res):
         if kind == "chi2":
             if not close(b2f(m["chi2"]), out, 1e-10):
                 res.disagree("reduced chi2: model %r impl %r" % (b2f(m["chi2"]), out), cj)
+            continue
+        if kind == "ddt_meas":
+            dm = out["ddt_meas"]
+            if not (close(b2f(m["mean"]), float(dm[0]), 1e-10) and close(b2f(m["sigma"]), float(dm[1]), 1e-7)):
+                res.disagree("ddt_measurement: model (Hist.measurement) %r impl %r" % ((b2f(m["mean"]), b2f(m["sigma"])), dm), cj)
             continue
         im, icm, ip, icp = out["sigma_v"]
         ok = (close_list([b2f(x) for x in m["measurement"]], list(map(float, im)), 1e-10)
